@@ -11,7 +11,7 @@ def pf(tok):
     if tok == "-inf": return "-inf"
     if tok == "?": return "?"
     if tok == "nan" or tok == "-nan": return "nan"
-    if "x" in tok or "p" in tok:
+    if "x" in tok:
         return Fr(float.fromhex(tok))
     return Fr(tok)
 
